@@ -93,9 +93,11 @@ def run(ctx, chk):
                 continue
             lo, hi = expected_bounds(form)
             want = ("seqof", bits_range(("bits", P(1)), lo, hi))
-            chk.ob("R-index", what, r.ret == want, "returns %s, range table requires %s" % (show(r.ret), show(want)), b["span"],
+            # the whole slice may also be returned as the receiver itself (seqof(bits(self)) is self)
+            whole = want == ("seqof", ("bits", P(1))) and r.ret == P(1)
+            chk.ob("R-index", what, r.ret == want or whole, "returns %s, range table requires %s" % (show(r.ret), show(want)), b["span"],
                    sample={"form": form, "bits": show(r.ret)})
-            chk.ob("I-transparent", what, r.ret[0] == "seqof", "result is not a pointer cast of a BitSlice: " + show(r.ret), b["span"])
+            chk.ob("I-transparent", what, r.ret[0] == "seqof" or whole, "result is not a pointer cast of a BitSlice: " + show(r.ret), b["span"])
             # the only calls allowed on the way are bitvec's checked Index (fail closed on any other accessor)
             for key, args, res, ev in r.calls:
                 okc = nf.BITVEC_INDEX.match(key) is not None or key.startswith("std::ops::RangeInclusive::<usize>::")
